@@ -114,6 +114,10 @@ func TestGenC11(t *testing.T) {
 			eager := rr.chance(1, 2)
 			// faultyClose: the relay reports errors when streams are closed
 			faultyClose := rr.chance(1, 3)
+			// plainKit: a quarter of the scenarios use the mailbox connections without the Noise layer (the session
+			// then stays at the pass-phrase rendezvous: every reconnect takes the refresh path)
+			plainKit := sc%4 == 3
+			credS, credC := mailbox.NewNoiseGrpcConn(cdS), mailbox.NewNoiseGrpcConn(cdC)
 			var nextAccept *pend
 			var clientRecvSID [64]byte
 			haveClientRecvSID := false
@@ -245,6 +249,31 @@ func TestGenC11(t *testing.T) {
 						return fmt.Sprintf("scenario %d round %d: client send=%x.. recv=%x.. server send=%x.. recv=%x..", sc, round, a0.SID[60:], a1.SID[60:], b0.SID[60:], b1.SID[60:])
 					})
 				}
+				if plainKit {
+					// no Noise layer: the mailbox connections themselves. Each connection starts with what its peer
+					// writes on it, also when the previous one was closed with bytes still unread.
+					msg := append([]byte(fmt.Sprintf("round-%d:", round)), rr.bytes(6+rr.intn(20))...)
+					go func() { _, _ = cc2.Write(msg) }()
+					part := make([]byte, 4+rr.intn(4)) // fewer bytes than were written: the rest stays unread
+					rd := make(chan struct{})
+					var k int
+					var rerr error
+					go func() { defer close(rd); k, rerr = sc2.Read(part) }()
+					for i := 0; i < 100; i++ {
+						select {
+						case <-rd:
+							i = 1000
+						default:
+							time.Sleep(250 * time.Millisecond)
+							synctest.Wait()
+						}
+					}
+					q.check(rerr == nil && k > 0 && bytes.Equal(part[:k], msg[:k]), "c11:fresh-connection-does-not-work", func() string {
+						return fmt.Sprintf("scenario %d round %d (plain mailbox connections): the server read %q (err %v), the client wrote %q on this connection", sc, round, part[:k], rerr, msg)
+					})
+					q.stat("plain_rounds", 1)
+					continue
+				}
 				if eager && round+1 < rounds {
 					nextAccept = startAccept(round + 1)
 					synctest.Wait()
@@ -256,8 +285,9 @@ func TestGenC11(t *testing.T) {
 				var eS, eC error
 				var hw sync.WaitGroup
 				hw.Add(2)
-				go func() { defer hw.Done(); nS, _, eS = mailbox.NewNoiseGrpcConn(cdS).ServerHandshake(sc2) }()
-				go func() { defer hw.Done(); nC, _, eC = mailbox.NewNoiseGrpcConn(cdC).ClientHandshake(ctx, "", cc2) }()
+				// one NoiseGrpcConn per party for the whole session, as gRPC holds its transport credentials
+				go func() { defer hw.Done(); nS, _, eS = credS.ServerHandshake(sc2) }()
+				go func() { defer hw.Done(); nC, _, eC = credC.ClientHandshake(ctx, "", cc2) }()
 				hdone := make(chan struct{})
 				go func() { hw.Wait(); close(hdone) }()
 				for i := 0; i < 100; i++ {
@@ -306,6 +336,29 @@ func TestGenC11(t *testing.T) {
 				q.check(rerr == nil && bytes.Equal(buf[:got], msg), "c11:fresh-connection-does-not-work", func() string {
 					return fmt.Sprintf("scenario %d round %d: %d/%d bytes, err %v", sc, round, got, len(msg), rerr)
 				})
+				// sometimes the connection ends with part of a large record still unread on the server side
+				if rerr == nil && rr.chance(1, 2) {
+					big := rr.bytes(40000)
+					go func() { _, _ = nC.Write(big) }()
+					small := make([]byte, 10)
+					rd2 := make(chan struct{})
+					var k2 int
+					var e2 error
+					go func() { defer close(rd2); k2, e2 = nS.Read(small) }()
+					for i := 0; i < 100; i++ {
+						select {
+						case <-rd2:
+							i = 1000
+						default:
+							time.Sleep(250 * time.Millisecond)
+							synctest.Wait()
+						}
+					}
+					q.check(e2 == nil && bytes.Equal(small[:k2], big[:k2]), "c11:fresh-connection-does-not-work", func() string {
+						return fmt.Sprintf("scenario %d round %d: first bytes of a large record: %d bytes, err %v", sc, round, k2, e2)
+					})
+					q.stat("rounds_ending_with_unread_data", 1)
+				}
 				// stream ids at the relay: before the pairing the pass-phrase ids, afterwards new ones
 				ids := relay.streamIDs()
 				if round == 0 {
